@@ -960,7 +960,7 @@ def str_method(ex, st, fi, o, name, args, kw, line):
             and name in ('count', 'find', 'rfind', 'startswith', 'endswith',
                          'strip', 'isspace', 'isalpha', 'isdecimal',
                          'islower', 'upper', 'lower', 'split', 'replace',
-                         'isalnum'):
+                         'isalnum', 'isdigit', 'isnumeric'):
         r = getattr(s.conc, name)(*args)
         if isinstance(r, list):
             r = TokList([Single(x) for x in r])
@@ -1049,6 +1049,13 @@ def str_method(ex, st, fi, o, name, args, kw, line):
     elif name == 'isalnum':
         yield st, And(zint(s.ln) > 0,
                       forall(0, s.ln, lambda k: isalnum_c(s.at(k))))
+    elif name in ('isdigit', 'isnumeric'):
+        # a superset of isdecimal (superscript two is a digit, int() rejects
+        # it): uninterpreted, decimal characters are digits, not conversely
+        f = z3.Function(name + '_c', sym.I, sym.B)
+        st.assume(forall(0, s.ln, lambda k: Implies(
+            sym.isdecimal_c(s.at(k)), f(s.at(k)))))
+        yield st, And(zint(s.ln) > 0, forall(0, s.ln, lambda k: f(s.at(k))))
     elif name == 'islower':
         b = fresh_bool('islower')
         st.assume(Implies(zint(s.ln) == 1, b == islower_c(s.at(0))))
@@ -1320,6 +1327,17 @@ def list_method(ex, st, fi, o, name, args, kw, line):
                 if k[0] == o.lid and k[1] == ver:
                     cache[(n.lid, 0) + tuple(k[2:])] = v
         yield st, n
+    elif name == 'reverse':
+        # in place; a summarised segment carries no order, its memoised
+        # first / last elements swap roles
+        segs = list(reversed(o.segs))
+        for sg in segs:
+            if isinstance(sg, Many):
+                sg.first, sg.last = sg.last, sg.first
+        o.segs[:] = segs
+        st.mut += 1
+        st.writes.append((o.lid, '$list'))
+        yield st, None
     elif name == 'sort':
         hook = ex.contracts.sort_hook
         if hook:
